@@ -8,7 +8,7 @@ import (
 )
 
 func init() {
-	register(&Rule{ID: "C16.d", Doc: "token positions are data, not decisions: outside the lexer a position field is only copied, put into an error, or printed as the line of a marker — and the line a marker prints is its token's start line", Floor: 6, Run: c16d})
+	register(&Rule{ID: "C16.d", Doc: "token positions are data, not decisions: outside the lexer a position field is only copied, put into an error, or printed as the line of a marker — and the line a marker prints is its token's start line", Floor: 10, Run: c16d})
 }
 
 var positionFields = map[string]bool{"LineNumber": true, "StartCharIndex": true, "StartUtf8CharIndex": true, "EndLineNumber": true, "EndCharIndex": true, "EndUtf8CharIndex": true}
